@@ -46,12 +46,19 @@ def cases(ctx):
     return out
 
 def run(ctx):
-    ctx.explanation = ('partial: metadata/offset/varint size theorems are unconditional; the body bound n(W+4) is proved only conditionally on Huffman optimality (hypothesis: total code bits <= total reference-code bits) and is evaluated per instance on the exact sizes; known finding: bool delta moments take one byte each')
+    ctx.explanation = ('metadata/offset/varint size theorems are unconditional; the body bound is now a theorem for tables without a '
+                       'run-length prefix (C14h.body_bound: disjoint ranges + truthful counts + codes costing Huffman\'s cost => '
+                       'body <= n(W+1)+7 bits; Huffman optimality and cost-invariance under tie-breaking proved in Lemmas/HuffmanOpt), '
+                       'its hypotheses are evaluated per chunk (disj, counts, huffopt); partial for tables WITH a run-length prefix '
+                       '(weights are an f64 estimate of the number of runs): evaluated per instance on the exact sizes; '
+                       'known finding: bool delta moments take one byte each')
     ctx.rule = ("enc stream on adversarial distributions (uniform full range, alternating extremes, thousands of tiny clusters at "
                 "level 12, short dominant runs, type extremes, every dtype): the model computes the exact body bits and the exact "
                 "metadata bits from the decoded syntax tree (equal to the real sizes because the spec re-encoding reproduces the "
                 "bytes) and evaluates: body <= n_coded*(W+4) bits, file overhead <= 8 bytes, chunk overhead <= 12+(order+1)*W/8 "
-                "bytes, per stored prefix <= (67+3W)/8+1 bytes. non-trivial = multi-prefix or > 64 numbers")
+                "bytes, per stored prefix <= (67+3W)/8+1 bytes; and per chunk `huffopt`: sum count*len(code) equals the Huffman cost "
+                "of the weights (count; for the run-length prefix the f64 estimate ceil(f(1-f)n) +-1) computed by the model's "
+                "huffCostW (= huffCost, proved). non-trivial = multi-prefix or > 64 numbers")
     if not ctx.model_ok:
         return
     res = S.run_enc(ctx, cases(ctx))
@@ -82,6 +89,14 @@ def run(ctx):
         only_bool_moments = True
         for i, ch in enumerate(r["chunks"]):
             nus, bodybits, bodybytes = int(ch["nus"]), int(ch["bodybits"]), int(ch["bodybytes"])
+            # the hypothesis `hcodes` of C14h.body_bound, per chunk: the real codes cost exactly Huffman's cost for the
+            # weights (C14h/HuffmanOpt: every tie-breaking of make_huffman_code has that cost, and it is minimal)
+            if "huffopt" in ch:
+                ctx.count("huffopt:" + ch["huffopt"] + ("-runlen" if "runlen" in ch.get("tags", "").split(",") else ""))
+                if ch["huffopt"] == "0":
+                    ctx.disagree("huffopt", line, "sum count*len(code) == huffCost(weights)",
+                                 "chunk %d: the codes in the file cost more or less than the Huffman cost of their weights" % i,
+                                 "hypothesis hcodes of C14h.body_bound does not hold for this chunk")
             if not tied:
                 bodybits = max(0, bodybytes * 8 - 7)
             metabits, prefbits, nprefs = int(ch["metabits"]), int(ch["prefbits"]), int(ch["nprefs"])
